@@ -281,17 +281,20 @@ def check(ctx: Ctx) -> None:
     def oce():
         return OCE(lambda z: z - z.square() / 8)
     traces = []
-    for i, cfg in enumerate(cfgs + extra_cfgs + hedge_cfgs):
-        feats, crit = setups[i % len(setups)]
+    plan = [(i, cfg, i % len(setups)) for i, cfg in enumerate(cfgs + extra_cfgs + hedge_cfgs)]
+    if ctx.tier == "thorough":                    # every configuration with every feature set / criterion, not a rotation
+        plan = [(i * len(setups) + j, cfg, j) for i, cfg in enumerate(cfgs + extra_cfgs + hedge_cfgs) for j in range(len(setups))]
+    for i, cfg, si in plan:
+        feats, crit = setups[si]
         if cfg["extra"]:
             crit = oce
         try:
             t = run_fit(cfg, ctx.seed * 1000 + i, feats, crit)
         except MachineryError:
             raise
-        t["setup"] = i % len(setups)
+        t["setup"] = si
         traces.append(t)
-        ctx.count(json.dumps(cfg, sort_keys=True), n=1)
+        ctx.count(json.dumps([cfg, si], sort_keys=True), n=1)
         if cfg["extra"] and cfg["optclass"]:
             continue
         # ---- reference loop: same parameters, same history, same simulate arguments
